@@ -98,8 +98,7 @@ func checkDepthComparatorImpl(c *Ctx, rule string) {
 			}
 		}
 		// the max-depth field: the int field of the store compared in these functions whose name contains "depth" and not "dlq"
-		maxField := ""
-		maxField = "maxDepth"
+		maxField := p.rolesOf(tn).maxDepth
 		lc := &linCtx{p: p, classify: classify, maxField: maxField, params: map[*ssa.Parameter][]linForm{}}
 		n := 0
 		seenBlock := map[*ssa.BasicBlock]bool{}
